@@ -25,6 +25,8 @@ def run_property(prop, tier='quick', overrides=None, quiet=False, only=None,
                        getattr(mod, 'FILES', [rel])):
                     R.error('parse', 'PARSE', rel, 'file parses', err)
         R.info['analysed'] = ix.stats()
+        from sa.helpers import set_index
+        set_index(ix)
         mod.run(ix, R)
         if census:
             from sa.branches import census as branch_census
